@@ -135,7 +135,19 @@ func checkC01(c *Ctx) {
 				if a, bb := eventsView(hr.Results[bi].End.Events)+eventsView(hr.Results[bi].Begin.Events), eventsView(res.End.Events)+eventsView(res.Begin.Events); a != bb {
 					c.Note("block events differ between replicas (not a listed observable)")
 				}
-				if v.restart > 0 && bi+1 < len(hr.Results) && rrng.Intn(1000) < v.restart {
+				doRestart := v.restart > 0 && bi+1 < len(hr.Results) && rrng.Intn(1000) < v.restart
+				if !doRestart && v.restart > 0 && bi+1 < len(hr.Results) && bi+1 < len(hr.Txs) {
+					// directed: the restarting twin also restarts right before a block whose contract calls read the
+					// chain's past (BLOCKHASH) - whatever a process keeps in memory about earlier blocks is gone then
+					for _, t := range hr.Txs[bi+1] {
+						if strings.Contains(t.Label, "blockhash") {
+							doRestart = true
+							c.Count("twin-restarts-before-blockhash-call", 1)
+							break
+						}
+					}
+				}
+				if doRestart {
 					if err := r.Stop(); err != nil {
 						c.Err(i, "twin stop", err)
 						return
